@@ -13,10 +13,12 @@ import (
 	"os"
 	"path/filepath"
 	"sort"
+	"strings"
 	"sync"
 	"testing"
 	"time"
 
+	"github.com/alicebob/miniredis/v2"
 	"github.com/projecteru2/core/cluster/calcium"
 	enginefactory "github.com/projecteru2/core/engine/factory"
 	enginetypes "github.com/projecteru2/core/engine/types"
@@ -28,6 +30,7 @@ import (
 	resourcetypes "github.com/projecteru2/core/resource/types"
 	"github.com/projecteru2/core/store"
 	"github.com/projecteru2/core/store/etcdv3"
+	"github.com/projecteru2/core/store/etcdv3/embedded"
 	"github.com/projecteru2/core/store/etcdv3/meta"
 	coretypes "github.com/projecteru2/core/types"
 	"github.com/projecteru2/core/wal"
@@ -113,6 +116,10 @@ func class(err error) string {
 		return "ok"
 	case errors.Is(err, ErrInjected):
 		return "injected"
+	case strings.Contains(err.Error(), "etcdserver:") || strings.Contains(err.Error(), "mvcc:"):
+		// the embedded etcd itself failed (request timed out under load, ...): the outcome of the call is
+		// unknown, the run is outside the failure model and is not judged
+		return "envfail"
 	default:
 		return "err"
 	}
@@ -293,6 +300,16 @@ var ConfigHook func(*coretypes.Config)
 
 var engineOnce sync.Once
 
+// StoreName: which metadata store the Calcium of this process uses.
+func StoreName() string {
+	if os.Getenv("VERIF_STORE") == "redis" {
+		return "redis"
+	}
+	return "etcd"
+}
+
+var sharedRedis *miniredis.Miniredis
+
 func BaseConfig(dir string) coretypes.Config {
 	return coretypes.Config{
 		MaxConcurrency:    100000,
@@ -314,6 +331,18 @@ func NewEnv(t *testing.T, dir string, g *Gate, eng *Engines) *Env {
 	cfg := BaseConfig(dir)
 	if ConfigHook != nil {
 		ConfigHook(&cfg)
+	}
+	if os.Getenv("VERIF_STORE") == "redis" {
+		// metadata store = store/redis on one miniredis per process (the cpumem plugin keeps using etcd)
+		if sharedRedis == nil {
+			mr, err := miniredis.Run()
+			if err != nil {
+				t.Fatalf("miniredis: %v", err)
+			}
+			sharedRedis = mr
+		}
+		cfg.Store = "redis"
+		cfg.Redis = coretypes.RedisConfig{Addr: sharedRedis.Addr(), LockPrefix: "__lock__"}
 	}
 	engineOnce.Do(func() { enginefactory.InitEngineCache(context.Background(), cfg, nil) })
 	cal, err := calcium.New(context.Background(), cfg, t)
@@ -396,12 +425,18 @@ func (e *Env) Quiesce(max time.Duration) bool {
 	return false
 }
 
-// WipeStore deletes every key of the store and the plugin (shared embedded etcd).
+// WipeStore deletes every key of the store and the plugin (shared embedded etcd, miniredis).
 func (e *Env) WipeStore() {
-	if m, ok := e.Raw.(*etcdv3.Mercury); ok {
-		_, _ = m.Delete(context.Background(), "/", clientv3.WithPrefix())
+	_, _ = e.etcdCli().Delete(context.Background(), "/", clientv3.WithPrefix())
+	if sharedRedis != nil {
+		sharedRedis.FlushAll()
 	}
 	e.Eng.Reset()
+}
+
+// etcdCli: the embedded cluster's (namespaced) client, shared by the etcd store and the cpumem plugin.
+func (e *Env) etcdCli() *clientv3.Client {
+	return embedded.NewCluster(e.T, e.Cfg.Etcd.Prefix).RandClient()
 }
 
 // ---------------------------------------------------------------------------------- locks
